@@ -7,6 +7,7 @@ check.py selftest mutants [--only NAME]     every breaking patch in /verif/mutan
 check.py selftest findings                  every witness under /verif/findings fails on the commit
                                             before its fix and passes on the current tree
 check.py selftest seeded                    every kept change under /verif/seeded/<id>/ is detected
+check.py selftest benign                    every property-preserving change under /verif/benign/<id>/ stays silent
 """
 
 import argparse
@@ -176,8 +177,14 @@ def findings(args):
 ###############################################################################
 
 
+def benign(args):
+    """Independently written changes that PRESERVE their property: the check must stay silent."""
+    args.dir = 'benign'
+    return seeded(args)
+
+
 def seeded(args):
-    sdir = os.path.join(core.VERIF, 'seeded')
+    sdir = os.path.join(core.VERIF, getattr(args, 'dir', None) or 'seeded')
     problems = []
     if not os.path.isdir(sdir):
         print('no seeded changes yet')
@@ -212,9 +219,9 @@ def seeded(args):
 
 def main(argv):
     ap = argparse.ArgumentParser(prog='check.py selftest')
-    ap.add_argument('what', choices=('determinism', 'mutants', 'findings', 'seeded'))
+    ap.add_argument('what', choices=('determinism', 'mutants', 'findings', 'seeded', 'benign'))
     ap.add_argument('--runs', type=int)
     ap.add_argument('--only')
     ap.add_argument('--tests', action='store_true', help='also run the repository test suite against each mutant')
     args = ap.parse_args(argv)
-    return {'determinism': determinism, 'mutants': mutants, 'findings': findings, 'seeded': seeded}[args.what](args)
+    return {'determinism': determinism, 'mutants': mutants, 'findings': findings, 'seeded': seeded, 'benign': benign}[args.what](args)
